@@ -11,18 +11,28 @@ def prop(pid, **kw):
 
 
 prop('C01',
-     technique='contract-based deductive verification: VCs generated from the AST of the real _exec_* / generator '
-               'functions, discharged by z3 (cvc5 fallback); QBASIC operator semantics as independent spec functions',
-     explanation='instruction contracts of the QVM against QBASIC operator semantics for all operand values',
-     assumptions=['operand stacks are well-typed for the instruction (established by the code generators, property C03)',
-                  'whole-program induction over GOTO/GOSUB/procedure control flow is not mechanised'],
-     not_covered=['pyparsing grammar', 'outer induction over whole programs', 'float ** (uninterpreted)'])
-prop('C02', technique='contract-based deductive verification (two-implementation equivalence folder vs machine)',
-     explanation='constant folder and machine instruction contracts against the same spec functions',
-     assumptions=[], not_covered=['CONST substitution by tree cloning'])
-prop('C03', technique='contract-based deductive verification of instruction typing contracts',
-     explanation='every instruction contract: typed operands in, typed result out, no STACK_EMPTY/TYPE_MISMATCH',
-     assumptions=[], not_covered=['arbitrary GOTO into templates'])
+     technique='contract-based deductive verification: VCs generated from the AST of the real _exec_* / generator / folder '
+               'functions, discharged by z3 (cvc5 fallback); QBASIC semantics as independent spec functions',
+     explanation='instruction contracts of the QVM and expression-level contracts (static result types, gen_binary_op/gen_unary_op '
+                 'composed with the machine) against QBASIC operator semantics for all operand values and all operand type pairs; '
+                 'PRINT/INPUT/READ device protocols; layout and array addressing',
+     assumptions=['whole-program induction over GOTO/GOSUB/procedure control flow is not mechanised: the lemmas are per node / per instruction',
+                  'child expressions satisfy their own generator contract (push one cell of their static type)'],
+     not_covered=['pyparsing grammar', 'outer induction over whole programs', 'float ** (uninterpreted)', 'control-flow templates '
+                  '(FOR/WHILE/DO/SELECT/IF) and procedure calls', 'builtin functions other than those listed in the evidence'])
+prop('C02', technique='contract-based deductive verification: two-implementation equivalence (constant folder vs emitted code run on the real '
+                      'machine code; peephole windows before vs after optimize()) for all operand values',
+     explanation='Expr.fold / BinaryOp.eval / UnaryOp.eval must compute what the unoptimised code computes at run time (value and type), must not '
+                 'fold a run-time failure away and must raise nothing else; every peephole rule window is run on the machine before and after '
+                 'the real optimize() and must behave identically and stay assemblable; markers and labels survive',
+     assumptions=['windows are checked after 0-2 unrelated instructions; operands outside -2..2 symbolic, -2..2 enumerated'],
+     not_covered=['CONST substitution by tree cloning', 'read/store pair elimination and jump rules only for marker preservation, not semantics',
+                  'static array bounds vs run-time bounds'])
+prop('C03', technique='contract-based deductive verification of typing contracts (instructions, expression generators, device protocols)',
+     explanation='every instruction/expression contract: typed operands in, a cell of the static result type out, or a language-level trap; '
+                 'device operations leave exactly the cells the generators expect; frame operands cover generator temporaries',
+     assumptions=['typed operand stacks are established inductively by the generator lemmas'],
+     not_covered=['arbitrary GOTO into templates', 'GOSUB return discipline', 'statement generators other than PRINT/INPUT/RESTORE'])
 prop('C07', technique='contract-based deductive verification: safety VCs (only Trapped/ZeroDivisionError escape an instruction)',
      explanation='safety halves of the instruction contracts and tick/_trap contracts',
      assumptions=['host signal delivery between bytecodes is an atomic flag write'], not_covered=['float **'])
@@ -68,3 +78,10 @@ prop('C09', technique='contract-based deductive verification: inverse-pair contr
      assumptions=['gzip+pickle debug section round-trips (library)'],
      not_covered=['disassembler text and whole-section round trip only as bounded stand-ins', 'listing writer __str__',
                   'frame operand computed lazily after all generators ran (generator side)'])
+prop('C19', technique='contract-based deductive verification of the numeric field layout (symbolic value, format() by assumed contract); '
+                      'scanner and consumption against an independent specification',
+     explanation='format_number proved to lay out sign, padding and the overflow mark as specified for every enumerated field shape and every value; '
+                 'the scanner compared with the specification scanner on every format string up to length 4 (bounded stand-in)',
+     assumptions=['str.format(value) is an uninterpreted function of (format spec, value): digit generation and rounding are those of CPython'],
+     not_covered=['format strings longer than 4 in the scanner', 'format strings whose meaning the property does not fix (comma right of the point, '
+                  'digit position directly after a trailing sign, sign followed by . or ,)'])
